@@ -32,7 +32,12 @@ func TestMain(m *testing.M) {
 			"plus bytes inserted before it (k=\"v\"J\"; J = base64 text, padding, another genuine value, the same value, other bytes), missing closing / opening quote, "+
 			"doubled quotes on either or both sides, a quote inside the value, bytes before the opening quote, single quotes, no quotes, blanks around '=' or inside the "+
 			"quotes, trailing tab, backslash before the closing quote; any other instance as target, other / invalid / re-cased Host, SNI mismatch; virtual sleeps to just before, at and "+
-			"just after the challenge and token lifetimes. TestServerInstances walks the instance dimension directly: 1-2 honest sessions, then 2-6 "+
+			"just after the challenge and token lifetimes. INSTANTS (instants_test.go) have nanosecond granularity: in 3/4 of the cases of TestServerProvenance / TestServerReuse the virtual clock is moved "+
+			"off the whole second before anything is minted (any millisecond of the second, any sub-millisecond part, with 0 / 1 / 400 000 / 499 999 / 500 000 / 500 001 / 600 000 / 700 000 / 999 999 ns "+
+			"preferred), 1/3 of the honest sessions follow after a gap with such a part, and a value is shown again 1 s before the end of its lifetime (challenge: 5 min; token: TokenTTL), exactly at it, "+
+			"and 1 ns / 0.4 ms / 0.6 ms / 0.4 s / 1 s after it; the label expiry:<use offset>@<where the issue instant lies in its millisecond and second>:<outcome> counts genuine, unaltered material shown "+
+			"to its own server at these instants. TestServerExpiryInstants enumerates the dimension completely: every client key type x both flows x 16 sub-second parts of the issue instant (128 sessions, "+
+			"engines and TokenTTLs in rotation), token and challenge answer each shown again at lifetime - 1 ns, + 0, + 1 ns, + 0.4 ms, + 0.6 ms, + 1 ms, + 0.4 s, + 0.6 s, + 1 s. TestServerInstances walks the instance dimension directly: 1-2 honest sessions, then 2-6 "+
 			"presentations of a token as issued / the challenge answered by its owner with a fresh signature for the TARGET's key and Host / the "+
 			"original answer verbatim / a forged token / a forged challenge, to the minting instance (control, must be accepted while fresh), a replica or "+
 			"a foreign instance, under the hostname it was minted for or the other one; 1/5 of the further instances are ROTATED: instance 0 after a restart with the next "+
@@ -95,11 +100,11 @@ func TestMain(m *testing.M) {
 			"been handed out by that origin; an origin that signed nothing gets no identity attributed, whatever it answers. "+
 			"NON-TRIVIAL = at least one operator / deviation / cross-target / expiry shift applied (TestServerInstances: at least one presentation to a "+
 			"foreign instance or of forged state; TestClientOrigins: at least one call to an origin while the client holds an unexpired proof / token of a "+
-			"DIFFERENT origin; TestServerKeyShapes / TestServerQuoting: every case, they are enumerations of alterations; TestServerKeyEncodings: every non-canonical way; TestServerReuse: at least one opaque-as-bearer / token-as-opaque / refused request AND a re-used state machine that handled at least two requests); DISTINCT = distinct (base step, operator+parameter "+
+			"DIFFERENT origin; TestServerKeyShapes / TestServerQuoting / TestServerExpiryInstants: every case, they are enumerations of alterations resp. of uses past expiry; TestServerKeyEncodings: every non-canonical way; TestServerReuse: at least one opaque-as-bearer / token-as-opaque / refused request AND a re-used state machine that handled at least two requests); DISTINCT = distinct (base step, operator+parameter "+
 			"list, target relation, host class, sleep class) resp. distinct response-plan list resp. distinct (kind, relation, flow, minter secret mode -> "+
 			"target secret mode / guessed secret, host class) list resp. distinct (origin spellings and kinds, per call: origin, sleep class, request flow, outcome, "+
 			"relation to the origins whose token is held).",
-		"challenge lifetime is the implementation constant 5 min (handshake/server.go challengeTTL); acceptance exactly at the TTL instant is allowed either way",
+		"challenge lifetime is the implementation constant 5 min (handshake/server.go challengeTTL); acceptance exactly at the TTL instant is allowed either way; expiry is computed on time.Time values at full (nanosecond) precision from the virtual instant at which the harness saw the value handed out - virtual time does not move while a request is handled, so this is the instant the server read from its clock; refusal BEFORE the end of a lifetime is not judged (completeness is no part of the property)",
 		"core/crypto Sign/Verify are trusted (property C08); a signature counts as proof when Verify accepts it under the reported peer's key over the exact expected bytes (ECDSA trailing-bytes malleability therefore never raises an alarm)",
 		"not asserted: a token minted under hostname A being refused under hostname B of the same instance; an opaque minted under hostname A being refused under B when the signature covers B; completeness (honest material being accepted) is only a harness precondition",
 		"instances that the application gives the same HmacKey count as one server (one secret): a token or challenge of one is allowed, not required, to be honoured by the other; every instance with an unset HmacKey is a server of its own",
